@@ -1028,3 +1028,41 @@ func (c *Cond) Broadcast() {
 	}
 	c.waiters = nil
 }
+
+// ---------------------------------------------------------------------------
+// sync.Pool
+
+// Pool mirrors sync.Pool with a deterministic policy: Get returns the most recently Put item.
+// The native pool's per-P caches make reuse depend on goroutine placement; always reusing at once
+// is a legal behaviour of sync.Pool, is replayable, and is the one that exposes an object handed
+// back while somebody still uses it.
+type Pool struct {
+	New func() interface{}
+
+	mu    sync.Mutex
+	items []interface{}
+}
+
+func (p *Pool) Get() interface{} {
+	p.mu.Lock()
+	if n := len(p.items); n > 0 {
+		x := p.items[n-1]
+		p.items = p.items[:n-1]
+		p.mu.Unlock()
+		return x
+	}
+	p.mu.Unlock()
+	if p.New != nil {
+		return p.New()
+	}
+	return nil
+}
+
+func (p *Pool) Put(x interface{}) {
+	if x == nil {
+		return
+	}
+	p.mu.Lock()
+	p.items = append(p.items, x)
+	p.mu.Unlock()
+}
